@@ -87,7 +87,7 @@ claim('C05',
       'symbolic integer pair (the solver enumerates every overlapping placement, all non-overlapping placements are one '
       'symbolic path), pixel values / weights / fill value are symbolic reals; every output cell is compared with the '
       'placement definition, None / empty exactly when no pixel is shared, view-vs-copy semantics, inputs unmodified.  '
-      'dtype / fill interactions (int, float, Quantity x 0, finite, nan, inf) executed over 56 box positions.',
+      'dtype / fill interactions (int, float, Quantity x 0, finite, nan, inf) and images holding nan / +-inf cells (plain and as a view) executed over 56 box positions.',
       'Small shapes (image <= 2x3 quick / 3x3 thorough, mask <= 2x2 / 3x3); reals model; numpy dtype promotion only in the executed table.',
       'symbolic execution of the real Python + SMT (z3 LIRA) with solver-enumerated integer placements',
       'DESIGN.md section 11.4 (as built) and section 5 C05 (plan)')
